@@ -567,9 +567,10 @@ def run(ctx, H, broken, cases=None, results=None, expected_filetype=None):
             "true" if realpos else "false", "true" if equal else "false", ft, "true" if promote else "false", coq_list(ents))
         # field counts only make sense for the entries with resolved types
         res = [e.replace("PUNDEF", PT[o.type]) for e in (ents or ["Build_entry %s RI" % PT[o.type]])]
-        body.append("Eval vm_compute in (cksave %s, line_fields (saver_fields %d %d) %s %d %s, line_fields (loader_fields %d) %s %d %s)."
+        z0_one = o.fz0 is None and z and z[0] == 1
+        body.append("Eval vm_compute in (cksave %s, line_fields (saver_fields %d %d) %s %d %s, line_fields (loader_fields %d) %s %d %s, save %s %s)."
                     % (term, o.rows, o.cols, "true" if o.fz0 is not None else "false", o.cols, coq_list(res),
-                       o.cols, "true" if o.fz0 is not None else "false", o.cols, coq_list(res)))
+                       o.cols, "true" if o.fz0 is not None else "false", o.cols, coq_list(res), "true" if z0_one else "false", term))
         rows.append((c, int(ck[0].split()[1]), sv[0]))
         if len(rows) >= 400:
             break
@@ -578,9 +579,16 @@ def run(ctx, H, broken, cases=None, results=None, expected_filetype=None):
         ctx.obligation("tie:cksave_model", False, "model evaluation failed: " + cerr[-300:])
         broken.append("save model cannot be evaluated: " + cerr[-300:])
         return
-    blocks = re.findall(r"=\s*\((true|false),\s*(\d+),\s*(\d+)\)", cout)
-    bad_ck = bad_f = 0
-    for (c, ckrc, svline), (mck, msf, mlf) in zip(rows, blocks):
+    blocks = re.findall(r"=\s*\((true|false),\s*(\d+),\s*(\d+),\s*(true|false)\)", cout)
+    bad_ck = bad_f = bad_sv = 0
+    for (c, ckrc, svline), (mck, msf, mlf, msv) in zip(rows, blocks):
+        if (msv == "true") != (int(svline.split(" # ")[0].split()[1]) == 0):
+            bad_sv += 1
+            if bad_sv <= 3:
+                ctx.violation({"kind": "disagreement", "op": "vnadata_fsave", "class": "save_model_vs_c"},
+                              "vnadata_fsave returned %s, the model's save (checks + conversions) says %s (type %s %dx%d, format %s, file %s)"
+                              % (svline.split(" # ")[0].split()[1], msv, c["obj"].type, c["obj"].rows, c["obj"].cols, c["format"], c["name"]),
+                              {"case": {k: repr(v) for k, v in c.items() if k != "obj"}})
         ctx.count(("save_model", c["id"]))
         if (mck == "true") != (ckrc == 0):
             bad_ck += 1
@@ -604,5 +612,6 @@ def run(ctx, H, broken, cases=None, results=None, expected_filetype=None):
                                       % (nf, msf, mlf, c["format"], c["obj"].cols), {"file": text[:2000]})
     ok = len(blocks) == len(rows)
     ctx.obligation("tie:cksave_model", ok and bad_ck == 0, "%d of %d differ" % (bad_ck, len(rows)))
+    ctx.obligation("tie:save_model", ok and bad_sv == 0, "%d of %d differ" % (bad_sv, len(rows)))
     ctx.obligation("tie:npd_field_counts", ok and bad_f == 0, "%d differ" % bad_f)
     ctx.extra["save_model_cases"] = len(rows)
